@@ -27,7 +27,7 @@ static Point mkPoint(Hist& h, const std::string& name, SPoint* intended = 0) {
 }
 
 // Build a caller-side frame the README way (querying the live object), then apply one deviation.
-Frame Hist::buildFrame(int dev, std::string* devName, SFrame* intended) {
+Frame Hist::buildFrame(int dev, std::string* devName, SFrame* intended, int forceSub) {
     SFrame want;
     static const char* names[] = {"valid", "pts-1", "pts+1", "renamed", "duplicated", "ch-1", "ch+1", "empty", "sub-1", "sub+1", "shuffled", "no_analogs", "uneven_channels", "sized_ctor", "undeclared_points"};
     if (devName) *devName = names[dev];
@@ -36,6 +36,7 @@ Frame Hist::buildFrame(int dev, std::string* devName, SFrame* intended) {
     long usedL = int0(prev, "POINT", "USED"); size_t nPoints = usedL > 0 ? (size_t)usedL : 0;
     std::vector<std::string> alabels = labelsOf(prev, "ANALOG");
     size_t nCh = prev.h.nAnalogs, nSub = prev.h.sub;
+    if (forceSub >= 0) { nSub = (size_t)forceSub; long au = int0(prev, "ANALOG", "USED"); nCh = au > 0 ? (size_t)au : nCh; }   // the caller supplies sub-frames although the header ratio is 0
     if (nPoints > 300) nPoints = 300;
     if (nCh > 300) nCh = 300;
     if (nSub > 80) nSub = 80;
@@ -133,7 +134,8 @@ bool Hist::opFrame(int how) {
     bool gaps = hasGaps(prev);
     if (!wild && how == 2 && n == 0 && rng.chance(92)) return false;       // extending an empty data set makes frame 0 a gap (recorded known finding); keep it rare
     int dev = 0;
-    if (!wild && aused > 0 && prev.h.sub == 0 && rng.chance(95)) return false;   // channels declared but no analog rate yet: the README frame would carry no sub-frames (undocumented shape)
+    int forceSub = -1;
+    if (!wild && aused > 0 && prev.h.sub == 0) { if (rng.chance(55)) return false; forceSub = rng.range(1, 2); }   // channels declared but the header ratio is 0 (no analog rate, or a rate below half the point rate)   // channels declared but no analog rate yet: the README frame would carry no sub-frames (undocumented shape)
     if (used == 0 && aused == 0) {
         if (float0(prev, "POINT", "RATE") == 0.0f && !wild) return false;
         if (n == 0) dev = 14; else return false;
@@ -141,7 +143,9 @@ bool Hist::opFrame(int how) {
     if (rng.chance(wild ? 45 : 28)) { static const int doc[] = {1, 2, 3, 4, 5, 6, 7}; static const int wl[] = {8, 9, 10, 11, 12, 13, 14};
         dev = (wild && rng.chance(50)) ? wl[rng.below(7)] : doc[rng.below(7)];
         if (!wild && used == 0 && dev >= 1 && dev <= 4) dev = 0; if (!wild && aused == 0 && (dev == 5 || dev == 6)) dev = 0; if (used == 0 && aused == 0 && n == 0 && !wild) dev = 14; }
-    std::string devName; SFrame sub; Frame f = buildFrame(dev, &devName, &sub);
+    if (forceSub >= 0 && dev != 0 && dev != 5 && dev != 6) dev = rng.chance(50) ? 5 : 6;
+    std::string devName; SFrame sub; Frame f = buildFrame(dev, &devName, &sub, forceSub);
+    if (forceSub >= 0) devName += "+forced_subframes";
     size_t idxArg = SIZE_MAX, target;
     std::string opn;
     if (how == 0) { opn = "frame_append"; target = n; }
@@ -231,7 +235,8 @@ static void checkColumnRelation(Hist& h, const std::string& op, const Snap& cur,
 bool Hist::opDeclarePoint() {
     std::vector<std::string> labels = labelsOf(prev, "POINT");
     size_t n = prev.frames.size();
-    if (!wild && n > 0 && hasGaps(prev)) return false;
+    bool overGaps = n > 0 && hasGaps(prev);
+    if (!wild && overGaps && !rng.chance(35)) return false;
     if (labels.size() >= 12 && !wild) return false;
     bool dup = !labels.empty() && rng.chance(n > 0 ? 15 : (wild ? 15 : 0));   // duplicate declaration on an empty data set is undocumented -> wild only
     std::string name = dup ? labels[rng.below(labels.size())] : freshName("P", labels);
@@ -256,6 +261,7 @@ bool Hist::opDeclarePoint() {
             if (n > 0) { Outcome lo; size_t found = SIZE_MAX; VF_TRY(lo, found = obj->data().frame(0).points().pointIdx(trimmed(arg))); if (lo.threw || found != cur.frames[0].pts.size() - 1) log.viol("C11", "trailing_spaces/point_lookup", "pointIdx(trimmed) after declare failed"); }
         }
     }
+    if (!oc.threw && overGaps) columnOverGaps = true;
     afterMutator("declare_point", oc);
     return true;
 }
@@ -263,7 +269,7 @@ bool Hist::opDeclarePoint() {
 bool Hist::opDeclareChannel() {
     std::vector<std::string> labels = labelsOf(prev, "ANALOG");
     size_t n = prev.frames.size();
-    if (!wild && n > 0 && (hasGaps(prev) || prev.h.sub == 0 || !subsUniform(prev))) return false;
+    if (!wild && n > 0 && (hasGaps(prev) || prev.h.sub == 0 || !subsUniform(prev))) return false;   // (a gap frame has no sub-frames to receive a channel)
     if (labels.size() >= 8 && !wild) return false;
     bool dup = !labels.empty() && rng.chance(n > 0 ? 15 : (wild ? 15 : 0));
     std::string name = dup ? labels[rng.below(labels.size())] : freshName("A", labels);
@@ -293,11 +299,12 @@ bool Hist::opDeclareChannel() {
 
 bool Hist::opPointColumn() {
     size_t n = prev.frames.size();
-    if (!wild && hasGaps(prev)) return false;
+    bool overGaps = hasGaps(prev);
+    if (!wild && overGaps && !rng.chance(35)) return false;
     std::vector<std::string> labels = labelsOf(prev, "POINT");
     if (labels.size() >= 14 && !wild) return false;
     // deviations: 0 valid, 1 frames-1, 2 frames+1, 3 no frames supplied, 4 no points, 5 existing name, 6 two columns/second duplicates an existing, 7 two columns/second duplicates the first, (wild) 8 later frame has fewer points
-    int dev = 0; if (rng.chance(35) || n == 0) { dev = rng.range(1, wild ? 8 : 7); }
+    int dev = 0; if (rng.chance(35) || n == 0) { dev = rng.range(1, 8); if (dev == 8 && n < 2) dev = 7; }   // 8 = ragged: documented neither way, only C10 (unchanged after a throw) is judged
     size_t k = (dev == 6 || dev == 7 || rng.chance(25)) ? 2 : 1;
     std::vector<std::string> names; std::vector<std::string> taken = labels;
     for (size_t i = 0; i < k; ++i) { names.push_back(freshName("C", taken)); taken.push_back(names.back()); }
@@ -323,18 +330,23 @@ bool Hist::opPointColumn() {
         else if (defect && !satisfies(oc.cls, "invalid_argument")) log.viol("C07", std::string("column/wrong_class/point_column/") + dn[dev] + "/" + oc.cls, "refused with " + oc.cls + ": " + oc.what);
         else if (!defect && dev == 0 && oc.threw) log.viol("C07", "column/valid_refused/point_column/" + oc.cls, "valid point column refused: " + oc.what);
         if (!oc.threw && dev == 0) { Snap cur = take(*obj); checkColumnRelation(*this, "point_column", cur, np, std::vector<std::vector<std::vector<SChan> > >()); }
+        if (!oc.threw && dev == 8) offSpec = true;
     }
+    if (!oc.threw && overGaps) columnOverGaps = true;
     afterMutator("point_column", oc);
     return true;
 }
 
 bool Hist::opChannelColumn() {
     size_t n = prev.frames.size(); size_t nsub = prev.h.sub;
-    if (!wild && (hasGaps(prev) || nsub == 0 || n == 0 || !subsUniform(prev))) return false;
+    bool emptyData = (n == 0);     // nothing stored yet: only the documented refusal 'nothing supplied' can be exercised
+    if (!wild && !emptyData && (hasGaps(prev) || nsub == 0 || !subsUniform(prev))) return false;
     std::vector<std::string> labels = labelsOf(prev, "ANALOG");
     if (labels.size() >= 10 && !wild) return false;
     // 0 valid, 1 frames-1, 2 frames+1, 3 sub-1, 4 sub+1, 5 no channels, 6 existing name, 7 second duplicates existing, 8 second duplicates first, (wild) 9 no frames
     int dev = 0; if (rng.chance(35)) dev = rng.range(1, wild ? 9 : 8);
+    bool ragged = !emptyData && dev == 0 && n >= 1 && nsub >= 2 && rng.chance(12);   // one later sub-frame one channel short: documented neither way, only C10 is judged
+    if (emptyData && !wild) dev = 9;
     size_t k = (dev == 7 || dev == 8 || rng.chance(25)) ? 2 : 1;
     std::vector<std::string> names; std::vector<std::string> taken = labels;
     for (size_t i = 0; i < k; ++i) { names.push_back(freshName("K", taken)); taken.push_back(names.back()); }
@@ -346,20 +358,21 @@ bool Hist::opChannelColumn() {
     std::vector<Frame> frames; std::vector<std::vector<std::vector<SChan> > > nc(nf);
     for (size_t f = 0; f < nf; ++f) {
         Analogs an;
-        for (size_t s = 0; s < ns; ++s) { SubFrame sf; size_t kk = dev == 5 ? 0 : k; for (size_t i = 0; i < kk; ++i) { Channel c; c.name(names[i]); c.data(bitsf(genFloatBits(rng, specialFloats))); sf.channel(c); } an.subframe(sf); }
+        for (size_t s = 0; s < ns; ++s) { SubFrame sf; size_t kk = dev == 5 ? 0 : k; if (ragged && f == nf - 1 && s == ns - 1) kk = k - 1; for (size_t i = 0; i < kk; ++i) { Channel c; c.name(names[i]); c.data(bitsf(genFloatBits(rng, specialFloats))); sf.channel(c); } an.subframe(sf); }
         Frame fr; fr.add(an); frames.push_back(fr); nc[f] = takeFrame(fr).subs;
     }
     static const char* dn[] = {"valid", "frames-1", "frames+1", "sub-1", "sub+1", "no_channels", "existing_name", "second_existing", "second_duplicates_first", "no_frames"};
-    std::ostringstream a; a << "dev=" << dn[dev] << " columns=" << k << " supplied=" << nf << "x" << ns << " n=" << n << " sub=" << nsub;
+    std::ostringstream a; a << "dev=" << (ragged ? "ragged_subframe" : dn[dev]) << " columns=" << k << " supplied=" << nf << "x" << ns << " n=" << n << " sub=" << nsub;
     log.pre("analog"); Outcome oc; VF_TRY(oc, obj->analog(frames));
     log.ev("channel_column", a.str(), oc); bump("op:channel_column"); bump(std::string("coldev:") + dn[dev] + (oc.threw ? ":refused" : ":accepted"));
     if (!wild) {
         bump("c07_column_calls");
-        bool defect = dev >= 1 && dev <= 8;
+        bool defect = (dev >= 1 && dev <= 8) || (dev == 9 && emptyData);
         if (defect && !oc.threw) log.viol("C07", std::string("column/defect_accepted/channel_column/") + dn[dev], std::string("analog(frames) accepted although ") + dn[dev]);
         else if (defect && !satisfies(oc.cls, "invalid_argument")) log.viol("C07", std::string("column/wrong_class/channel_column/") + dn[dev] + "/" + oc.cls, "refused with " + oc.cls + ": " + oc.what);
-        else if (dev == 0 && oc.threw) log.viol("C07", "column/valid_refused/channel_column/" + oc.cls, "valid channel column refused: " + oc.what);
-        if (!oc.threw && dev == 0) { Snap cur = take(*obj); checkColumnRelation(*this, "channel_column", cur, std::vector<std::vector<SPoint> >(), nc); }
+        else if (dev == 0 && !ragged && oc.threw) log.viol("C07", "column/valid_refused/channel_column/" + oc.cls, "valid channel column refused: " + oc.what);
+        if (!oc.threw && dev == 0 && !ragged) { Snap cur = take(*obj); checkColumnRelation(*this, "channel_column", cur, std::vector<std::vector<SPoint> >(), nc); }
+        if (!oc.threw && ragged) offSpec = true;
     }
     afterMutator("channel_column", oc);
     return true;
